@@ -116,6 +116,10 @@ def mk_bin(op, ty, a, b):
             return mk_ite(a[1], mk_bin(op, ty, a[2], b), mk_bin(op, ty, a[3], b))
         if b[0] == "ite" and _leafconst(b) and is_c(a):
             return mk_ite(b[1], mk_bin(op, ty, a, b[2]), mk_bin(op, ty, a, b[3]))
+        if op in ("add", "sub") and b[0] == "ite" and is_c(b[2]) and is_c(b[3]):
+            return mk_ite(b[1], mk_bin(op, ty, a, b[2]), mk_bin(op, ty, a, b[3]))   # x +/- (c ? k1 : k2)
+        if op == "add" and a[0] == "ite" and is_c(a[2]) and is_c(a[3]):
+            return mk_ite(a[1], mk_bin(op, ty, a[2], b), mk_bin(op, ty, a[3], b))
     if bits and bits > 1 and op == "ashr" and is_c(b) and b[2] == bits - 1 and not is_c(a):
         return mk_ite(mk_icmp("slt", ty, a, C(bits, 0)), C(bits, -1), C(bits, 0))   # the sign word
     if bits and bits > 1 and op == "lshr" and is_c(b) and b[2] == bits - 1 and not is_c(a):
@@ -312,6 +316,8 @@ def mk_not(c):
 def mk_ite(c, x, y):
     if is_c(c):
         return x if c[2] else y
+    if c[0] in ("icmp", "icmpx") and c[1] == "ne":
+        c, x, y = (c[0], "eq") + tuple(c[2:]), y, x        # canonical polarity
     if x == y:
         return x
     if x == UNDEF:
@@ -363,7 +369,7 @@ def _size(e, memo=None):
     return 1 + sum(_size(k) for k in e if isinstance(k, tuple))
 
 
-def mk_ite0(c, x, y):
+def mk_ite0(c, x, y, _ctx=True):
     if x == y:
         return x
     if x == UNDEF:
@@ -373,10 +379,10 @@ def mk_ite0(c, x, y):
     if is_c(c):
         return x if c[2] else y
     # the condition is known inside the arms
-    if c[0] in ("icmp", "icmpx", "extract", "fop", "op"):
+    if _ctx and c[0] in ("icmp", "icmpx", "extract", "fop", "op"):
         x2, y2 = subst(x, c, C(1, 1)), subst(y, c, C(1, 0))
         if x2 != x or y2 != y:
-            return mk_ite0(c, x2, y2)
+            return mk_ite0(c, x2, y2, False)
     # sign knowledge: where X >= 0 is known, zext(X) and sext(X) are the same value (canonical: sext)
     if c[0] == "icmp" and is_c(c[4]) and c[1] in ("sgt", "slt", "sge", "sle"):
         k = sval(c[4])
